@@ -2,7 +2,7 @@
 # tools/seed_matrix.sh [tier]  -- every kept seed vs. the check of its property
 TIER="${1:-quick}"
 cd /verif
-for d in seeded/*/; do
+for d in seeded/${2:-}*/; do
   id=$(basename $d); prop=$(echo $id | cut -d- -f1)
   res=$(tools/try_seed.sh $d/patch.diff $prop $TIER 2>&1)
   if echo "$res" | grep -q "patch does not apply"; then v="PATCH-DOES-NOT-APPLY";
